@@ -50,7 +50,7 @@ def run_ranges(prop, ranges, n, seed, per_shard=300):
         if code == 1:
             inexact += 1
         if code >= 2:
-            rc, mo = vlib.coq_eval(prop, IMPORTS, 'model_out %s' % l)
+            rc, mo = vlib.coq_eval(prop, IMPORTS, 'model_out %s' % l) if len(failures) < 4 else (0, '(not evaluated)')
             failures.append({'clause': 'model_vs_impl', 'key': names.get(op, ('?',))[0], 'op': op,
                              'function': names.get(op, ('?',))[0], 'args': args, 'implementation': res,
                              'model': ' '.join(mo.split())[:1500], 'verdict': VERDICT_TEXT.get(code, code),
